@@ -1,5 +1,6 @@
 import Driver.Common
 import Emitter.Model.Mqtt
+import Emitter.Spec.Mqtt
 namespace Driver.C16
 open Emitter Emitter.Mqtt Driver
 
@@ -82,6 +83,16 @@ def showDecoded : Outcome (Packet × Bytes) → String
   | .err _ => "err"
   | .panic _ => "panic"
 
+/-- the standard's answer for a decoder (`Spec.Mqtt.decode`), rendered like `showDecoded`; `none` when the
+bytes are not a valid MQTT 3.1.1 packet (the standard then only demands that the connection be closed, and
+the codec's permissiveness is recorded as `*_deviation` theorems in Props/C16.lean) -/
+def showSpecDecoded (expected : Packet) (bs : Bytes) : Option String :=
+  match Spec.Mqtt.decode bs with
+  | some (q, rest) =>
+      if q = expected then some s!"ok {showPacket q} rest={rest.length}"
+      else some s!"spec-decodes ok {showPacket q} rest={rest.length}"
+  | none => none
+
 def step (ws : List String) (_impl : String) : Ans :=
   match ws with
   | "enc" :: desc =>
@@ -91,32 +102,56 @@ def step (ws : List String) (_impl : String) : Ans :=
           -- the spec constrains what the broker emits: a PUBLISH that does not fit must be refused
           -- with an error, never a panic; oversize packets of types only clients send are not in scope
           let isPub := match p with | .publish .. => true | _ => false
-          { m := outcomeHex r, s := if r.isPanic && isPub then "err" else "=" }
+          let other := if r.isPanic && isPub then "err" else "="
+          -- S: the bytes MQTT 3.1.1 prescribes for the packet (Spec/Mqtt.lean), when the value denotes a
+          -- valid standard packet and its Remaining Length fits the broker's buffer
+          let s := match Spec.Mqtt.encode p, Spec.Mqtt.remainingLengthOf p with
+            | some bs, some n => if n ≤ bodyRoom then "ok " ++ hexOfBytes bs else other
+            | _, _ => other
+          { m := outcomeHex r, s := s }
       | none => bad
   | "dec" :: max :: [hex] =>
       match max.toNat?, bytesOfHex hex with
       | some max, some bs =>
           let r := decode bs max
-          -- malformed input may make the decoder panic (contained per connection, see C09)
-          { m := showDecoded r }
+          -- malformed input may make the decoder panic (contained per connection, see C09).
+          -- S: when the bytes start with a valid MQTT 3.1.1 packet (the standard's strict parser accepts
+          -- them) whose Remaining Length is within the limit, the decoder must return that packet and
+          -- leave the same rest; on anything else the standard asks for nothing but closing the connection
+          let s := match Spec.Mqtt.decode bs, Spec.Mqtt.remainingLength 4 (bs.drop 1) with
+            | some (q, rest), some (n, _) => if n ≤ max then s!"ok {showPacket q} rest={rest.length}" else "="
+            | _, _ => "="
+          { m := showDecoded r, s := s }
       | _, _ => bad
-  -- encode with the broker, decode with the reference codec: must give the packet back
+  -- encode with the broker, decode with the reference codec: must give the packet back.
+  -- S: what the standard's parser makes of the emitted bytes
   | "refdec" :: desc =>
       match parsePacket desc with
       | some p =>
           match encode p with
-          | .ok bs => { m := showDecoded (decode bs maxMessageSize), s := s!"ok {showPacket (normal p)} rest=0" }
+          | .ok bs =>
+              { m := showDecoded (decode bs maxMessageSize),
+                s := (showSpecDecoded (normal p) bs).getD s!"ok {showPacket (normal p)} rest=0" }
           | .err _ => { m := "err" }
           | .panic _ => { m := "panic" }   -- oversize packet of a type only clients send: out of scope
       | none => bad
-  -- encode with the reference codec, decode with the broker
+  -- encode with the reference codec, decode with the broker.
+  -- the reference bytes are the standard's (`Spec.Mqtt.encode`) where it prescribes any; S: the standard's
+  -- parser on them
   | "refenc" :: desc =>
       match parsePacket desc with
       | some p =>
-          let bs := encodeWire p
+          let sb := Spec.Mqtt.encode p
+          let bs := sb.getD (encodeWire p)
           let r := decode bs maxMessageSize
+          let old := s!"ok {showPacket (normal p)} rest=0"
           { m := showDecoded r,
-            s := if bs.length - 2 > maxMessageSize + 3 then "=" else s!"ok {showPacket (normal p)} rest=0" }
+            -- a packet beyond the broker's size limit is refused; that is the broker's right (C09), not the
+            -- standard's demand. (The Remaining Length is the standard's when the value denotes a packet.)
+            s := if (Spec.Mqtt.remainingLengthOf p).getD (parts p).2.2.length > maxMessageSize then "="
+                 else match sb with
+                   | some sb => (showSpecDecoded (normal p) sb).getD old
+                   | none => old }
       | none => bad
   -- concurrent encodes (one goroutine per publisher): the encoder has no shared state a writer could
   -- observe, every frame is the sequential encoding of its packet
